@@ -789,6 +789,18 @@ fn c18_no_panic_total(ctx: &mut Ctx) {
         if in_c01_operand_domain(x) {
             check!(ctx, normalised_or_nonfinite(r), "{name}({}) = {} is neither normalised nor non-finite", x.show(), r.show());
         }
+        // the domain clauses carry no range: every valid x outside the domain
+        let v = x.big();
+        if which == 4 && v < Big::one() {
+            check!(ctx, !r.valid(), "acosh({}) = {} should be invalid for x < 1", x.show(), r.show());
+        }
+        if which == 5 && v.abs() >= Big::one() {
+            check!(ctx, !r.valid(), "atanh({}) = {} should be invalid for |x| >= 1", x.show(), r.show());
+        }
+        if v.is_zero() && which != 4 {
+            let want1 = which == 1;
+            check!(ctx, if want1 { r.hi == 1.0 && r.lo == 0.0 } else { both_zero(r) }, "{name}(0) = {}", r.show());
+        }
     }
     ctx.set_nontrivial(x.hi.abs() > 600.0 || x.hi.abs() < 1e-290);
 }
